@@ -1,5 +1,6 @@
 """Observation of exceptions crossing configurables (C17): every builtin exception class plus synthetic user
 classes, raised at nesting depth 1-3 in a body or while Gin evaluates a reference."""
+import contextlib
 import builtins
 import sys
 import traceback
@@ -178,7 +179,8 @@ def observe(label, factory, depth, site, scopes):
 
   def level(i):
     def run():
-      with gin.config_scope(scopes[i] or None):
+      # '' = no block at this level (config_scope(None) would *clear* the active scope)
+      with (gin.config_scope(scopes[i]) if scopes[i] else contextlib.nullcontext()):
         return lv[i](action=(level(i + 1) if i + 1 < depth else innermost))
     return run
 
